@@ -146,6 +146,12 @@ class KindInterp:
         for n in ast.walk(s):
             if isinstance(n, ast.Name) and isinstance(n.ctx, ast.Store):
                 env[n.id] = TOP
+        # a statement outside the fragment can change any kind in scope (through a bound method taken earlier, a
+        # table of handlers, a helper): every feature set known so far is unknown from here on
+        if any(isinstance(n, (ast.Call, ast.Attribute)) for n in ast.walk(s)):
+            for k in list(env):
+                if isinstance(env[k], set):
+                    env[k] = TOP
         return None
 
     # --------------------------------------------------------------- expressions
